@@ -17,6 +17,7 @@ mod c09;
 mod c10;
 mod c11;
 mod c12;
+mod c13;
 mod c14;
 mod c15;
 mod c16;
@@ -37,7 +38,7 @@ mod workload;
 use crate::core::{Property, Tier};
 
 fn registry() -> Vec<Property> {
-    vec![c01::PROP, c02::PROP, c03::PROP, c04::PROP, c05::PROP, c06::PROP, c07::PROP, c08::PROP, c09::PROP, c10::PROP, c11::PROP, c12::PROP, c14::PROP, c15::PROP, c16::PROP, c17::PROP]
+    vec![c01::PROP, c02::PROP, c03::PROP, c04::PROP, c05::PROP, c06::PROP, c07::PROP, c08::PROP, c09::PROP, c10::PROP, c11::PROP, c12::PROP, c13::PROP, c14::PROP, c15::PROP, c16::PROP, c17::PROP]
 }
 
 fn find(id: &str) -> Property {
